@@ -1,8 +1,10 @@
 import Driver.DiffDB
 import Driver.Fns
+import Driver.Codec
 
 def main (args : List String) : IO UInt32 := do
   match args with
   | ["C12"] => Driver.DiffDB.main; return 0
   | ["C07"] => Driver.Fns.main; return 0
+  | ["C08"] => Driver.Codec.main; return 0
   | _ => IO.eprintln "usage: ldriver <property-id>"; return 2
